@@ -8,7 +8,7 @@ order): identical bytes, identical decoded value, identical number of bytes cons
 Engine side — NOT executable here (no Scala): `etype_of` is regenerated (T) from the `case` table of
 EType.fromPythonTypeEncoding by harness/translate/scala_etype.py; the decoders of the encoded types are a hand
 transcription (coq/theories/HailEncoding/Engine.v) whose Scala sources are fingerprinted (fail closed when they change).
-The REAL bytes produced by Python are additionally fed to the engine model (smoke test of the layout theorem).
+The engine model is additionally evaluated on the (model = real) bytes of every case (smoke test of the generated table).
 """
 import glob
 import hashlib
@@ -212,7 +212,9 @@ def _model(ctx, cases, impl, junk):
     exprs = []
     for c, r in zip(cases, impl):
         T, V = G.coq_type(c['t']), G.coq_value(c['t'], r['built'])
-        real = _blist(r['bytes']) if 'bytes' in r else 'encode ' + T + ' ' + V
+        # NB: the engine model is evaluated on the MODEL's bytes (equal to the real ones whenever the first correspondence
+        # holds); feeding arbitrary foreign bytes to vm_compute could build astronomically large unary lengths.
+        real = '(encode ' + T + ' ' + V + ')'
         exprs.append(f'(wf_ty {T} && wt_enc {T} {V} && negb (is_na {V}), encode {T} {V}, decode {T} (encode {T} {V} ++ {_blist(junk)}), '
                      f'edecode (C33.Gen.etype_of {T}) ({real} ++ {_blist(junk)}), erase {T} {V})')
     return coq_eval(ctx, HEADER, exprs, shard=120)
@@ -250,18 +252,18 @@ def correspond(ctx):
         if mv is None or [mv[0], mv[1]] != [iv[0], iv[1]]:
             dis.append(Disagreement('decode~_convert_from_encoding', c, mv, iv))
             continue
-        # the engine model reads the REAL bytes
+        # the engine model reads these bytes (they equal the real ones at this point)
         if edec is None or edec[1][1] != junk or read_evalue(edec[1][0]) != read_evalue(erased):
-            dis.append(Disagreement('edecode(real bytes)~erase', c, None if edec is None else edec[1], erased))
+            dis.append(Disagreement('edecode(bytes)~erase', c, None if edec is None else edec[1], erased))
     return Corr(evaluations=3 * len(cases), distinct_nontrivial=len(distinct),
                 rule='(type, value) pairs: corpus + hand-written edge cases + genotype-index boundaries + seeded random nested types (depth <= 3, '
                      'containers up to 17 entries to cross missing-byte boundaries); non-trivial = nested type; each pair compares the bytes, the '
                      'decoded value + bytes consumed (junk appended) between real types.py and the Gallina model, and runs the engine-decoder '
-                     'model on the real bytes',
+                     'model on those bytes',
                 samples=[{'case': c, 'impl': {k: v for k, v in r.items() if k != 'built'}} for c, r in list(zip(cases, impl))[-3:]],
                 disagreements=dis,
                 histograms={'type_constructors': dict(sorted(kinds.items())), 'ndarray_memory_order': orders},
-                names=['encode~_to_encoding', 'decode~_convert_from_encoding', 'edecode(real bytes)~erase'])
+                names=['encode~_to_encoding', 'decode~_convert_from_encoding', 'edecode(bytes)~erase'])
 
 
 # ------------------------------------------------------------------------------------------------ oracle
@@ -351,7 +353,7 @@ def replay(ctx, doc):
         m = _model(ctx, [case], impl, junk)[0]
         out['model'] = {'in_domain': m[0], 'encode': m[1],
                         'decode': None if m[2] is None else [G.canon_value(case['t'], G.read_value(case['t'], m[2][1][0])), m[2][1][1]],
-                        'engine_model_on_real_bytes': None if m[3] is None else [read_evalue(m[3][1][0]), m[3][1][1]]}
+                        'engine_model_on_these_bytes': None if m[3] is None else [read_evalue(m[3][1][0]), m[3][1][1]]}
     except Exception as e:  # noqa: BLE001
         out['model'] = f'model evaluation failed: {e}'
     return out
